@@ -10,3 +10,5 @@ import PlcProofs.Props.C09
 #print axioms C09.duration_subnanosecond_rejected
 #print axioms C09.duration_overflow_rejected
 #print axioms C09.duration_sum
+#print axioms C09.tod_fields_in_range
+#print axioms C09.date_is_calendar_date
